@@ -36,6 +36,13 @@ pub broadcast group group_u256 { axiom_u256_range, axiom_u256_of, lemma_u256_div
 
 pub open spec fn sat_mul(a: nat, b: nat) -> nat { if a * b < pow256() { a * b } else { u256_max() } }
 
+pub trait VfNat: Sized { spec fn s_nat(self) -> nat; }
+impl VfNat for u8 { open spec fn s_nat(self) -> nat { self as nat } }
+impl VfNat for u16 { open spec fn s_nat(self) -> nat { self as nat } }
+impl VfNat for u32 { open spec fn s_nat(self) -> nat { self as nat } }
+impl VfNat for u64 { open spec fn s_nat(self) -> nat { self as nat } }
+impl VfNat for u128 { open spec fn s_nat(self) -> nat { self as nat } }
+impl VfNat for usize { open spec fn s_nat(self) -> nat { self as nat } }
 impl Clone for U256 {
     #[verifier::external_body]
     fn clone(&self) -> (r: U256) ensures r == *self { unimplemented!() }
@@ -45,8 +52,9 @@ impl U256 {
     pub fn zero() -> (r: U256) ensures r@ == 0 { unimplemented!() }
     #[verifier::external_body]
     pub fn one() -> (r: U256) ensures r@ == 1 { unimplemented!() }
+    // From<u8 | u16 | u32 | u64 | u128 | usize> for U256
     #[verifier::external_body]
-    pub fn from(x: u64) -> (r: U256) ensures r@ == x as nat { unimplemented!() }
+    pub fn from<T: VfNat>(x: T) -> (r: U256) ensures r@ == x.s_nat() { unimplemented!() }
     #[verifier::external_body]
     pub fn max_value() -> (r: U256) ensures r@ == u256_max() { unimplemented!() }
     #[verifier::external_body]
